@@ -647,9 +647,9 @@ Definition rc_object_start (s : list N) : option rc_og :=
     else None
   else None.
 
-(* is the object at `off` a dictionary with /Type /Catalog (strict specification parser on the body) *)
-Definition rc_is_catalog (file : list N) (len : N) (off : N) : bool :=
-  if len <=? off then false else
+(* the dictionary an object at `off` holds (strict specification parser on the body) *)
+Definition rc_dict_at (file : list N) (len : N) (off : N) : option (list (list N * pobj)) :=
+  if len <=? off then None else
   let s := rc_drop off file in
   let t1 := rc_read_token 0 s in
   let s1 := rc_drop (rc_t_end t1) s in
@@ -657,8 +657,24 @@ Definition rc_is_catalog (file : list N) (len : N) (off : N) : bool :=
   let s2 := rc_drop (rc_t_end t2) s1 in
   let t3 := rc_read_token 0 s2 in
   match parse_obj 2000 (rc_drop (rc_t_end t3) s2) with
-  | Some (SpDict d, _) => match dict_get d rc_n_Type with Some (SpName n) => rc_beq n rc_n_Catalog | _ => false end
-  | _ => false
+  | Some (SpDict d, rest) =>
+      (* readObject: a dictionary followed by the keyword stream is a stream, not a dictionary *)
+      let t4 := rc_read_token 0 rest in
+      if rc_is_word t4 rc_kw_stream then None
+      (* readObjectAtOffset skips isspace() after the object and throws "EOF after endobj" when the input ends
+         there: the object is then not cached *)
+      else if forallb rc_is_space (rc_drop (rc_t_end t4) rest) then None
+      else Some d
+  | _ => None
+  end.
+
+(* is the object at `off`, once resolved, a dictionary with /Type /Catalog: the fallback of reconstruct_xref walks
+   the object cache and asks isDictionaryOfType("/Catalog"); a stream is no dictionary, and an object whose reading
+   threw ("EOF after endobj": the file ends right after it) resolved to null and is no candidate *)
+Definition rc_is_catalog (file : list N) (len : N) (off : N) : bool :=
+  match rc_dict_at file len off with
+  | Some d => match dict_get d rc_n_Type with Some (SpName n) => rc_beq n rc_n_Catalog | _ => false end
+  | None => false
   end.
 
 (* ------------------------------------------------------------------ the whole view *)
@@ -721,27 +737,6 @@ Fixpoint rc_mismatch (file : list N) (len : N) (t : rc_table) : bool :=
   end.
 Fixpoint rc_has_zero (t : rc_table) : bool :=
   match t with [] => false | (_, off) :: r => (off =? 0) || rc_has_zero r end.
-
-(* the dictionary an object at `off` holds (strict specification parser on the body) *)
-Definition rc_dict_at (file : list N) (len : N) (off : N) : option (list (list N * pobj)) :=
-  if len <=? off then None else
-  let s := rc_drop off file in
-  let t1 := rc_read_token 0 s in
-  let s1 := rc_drop (rc_t_end t1) s in
-  let t2 := rc_read_token 0 s1 in
-  let s2 := rc_drop (rc_t_end t2) s1 in
-  let t3 := rc_read_token 0 s2 in
-  match parse_obj 2000 (rc_drop (rc_t_end t3) s2) with
-  | Some (SpDict d, rest) =>
-      (* readObject: a dictionary followed by the keyword stream is a stream, not a dictionary *)
-      let t4 := rc_read_token 0 rest in
-      if rc_is_word t4 rc_kw_stream then None
-      (* readObjectAtOffset skips isspace() after the object and throws "EOF after endobj" when the input ends
-         there: the object is then not cached *)
-      else if forallb rc_is_space (rc_drop (rc_t_end t4) rest) then None
-      else Some d
-  | _ => None
-  end.
 
 Definition rc_pc_hit (pc : option (rc_og * N)) (og : rc_og) : option N :=
   match pc with
